@@ -162,6 +162,22 @@ def _scale(t, f, spec):
         raise
 
 
+def _history(t, fs, spec, tspec):
+    """apply the factor sequence; optionally the transform travels through deepcopy / pickle after one of the factors (a view wrapper
+    copying its configs, a spawn-started worker, a checkpoint) and the copy is what is scaled from then on"""
+    at, how = spec.get("clone_at"), spec.get("clone_how")
+    for j, f in enumerate(fs):
+        _scale(t, f, tspec)
+        if how and at is not None and j == at % len(fs):
+            import pickle
+            try:
+                t = copy.deepcopy(t) if how == "deepcopy" else pickle.loads(pickle.dumps(t))
+            except (pickle.PicklingError, AttributeError, TypeError):
+                if how == "deepcopy":
+                    raise
+    return t
+
+
 def check(spec):
     tspec, fs, key = spec["t"], spec["fs"], spec["key"]
     fam = spec.get("fam") or treg.family(tspec)
@@ -178,9 +194,7 @@ def check(spec):
     R0_log, R0_ctx, _, _ = spy_ranges(fresh(), fam, key)
 
     # (1) scale(1) restores the constructed ranges (also after other factors)
-    t = fresh()
-    for f in fs:
-        _scale(t, f, tspec)
+    t = _history(fresh(), fs, spec, tspec)
     _scale(t, 1.0, tspec)
     a = attr_snapshot(t)
     if not _dict_close(a, R0_attr):
@@ -191,9 +205,7 @@ def check(spec):
         raise Violation(f"scale(1)-does-not-restore-requested-ranges:{tag}", f"{tspec}: constructed {R0_log} {R0_ctx}, after scale(1) {log1} {ctx1}"[:400])
 
     # (4) no compounding: the sequence equals a fresh instance scaled once by the last factor
-    t = fresh()
-    for f in fs:
-        _scale(t, f, tspec)
+    t = _history(fresh(), fs, spec, tspec)
     u = fresh()
     _scale(u, fs[-1], tspec)
     a, b = attr_snapshot(t), attr_snapshot(u)
@@ -357,6 +369,9 @@ def check_scheduled_sim(spec):
     other = KDScheduledTransform(probe, schedule=_schedule(other_name)) if spec.get("shared") else None
     if spec["nest"] and other is None:
         template = KDComposeTransform([template])
+    # calls made in the main process before any worker exists (peeking at dataset[0]) are not part of the schedule
+    for _ in range(spec.get("peek", 0)):
+        template(None, {})
     workers = []
     for r in range(W):
         w, o = copy.deepcopy((template, other))
@@ -470,7 +485,8 @@ def pil_composition(draw):
 
 def _wrap(ts):
     return st.fixed_dictionaries({"t": ts, "fs": st.lists(FACTORS, min_size=1, max_size=5), "fg": st.tuples(FACTORS, FACTORS).map(list),
-                                  "key": st.integers(0, 50)})
+                                  "key": st.integers(0, 50), "clone_at": st.integers(0, 4),
+                                  "clone_how": st.sampled_from([None, None, "deepcopy", "pickle"])})
 
 
 def _leaf_facet(name):
@@ -483,7 +499,7 @@ SCHED = st.fixed_dictionaries({"W": st.integers(1, 4), "B": st.integers(1, 5), "
                                "budget": st.sampled_from(["updates", "samples", "epochs"]), "epochs": st.integers(1, 4),
                                "world": st.integers(1, 3), "drop_last": st.booleans(), "extra": st.integers(0, 9),
                                "schedule": st.sampled_from(["linear", "cosine", "lindec"]), "nest": st.booleans(),
-                               "shared": st.booleans()})
+                               "shared": st.booleans(), "peek": st.sampled_from([0, 0, 1, 2, 5])})
 
 FACETS = [_leaf_facet(n) for n in SCALABLE] + [
     Facet("compositions", check, strategy=lambda tier: _wrap(scal_tspec(2)),
